@@ -11,20 +11,30 @@ MANIFEST = {
              "insurance vault, fee vault and global fee ATA and reduces the buckets by the same amounts; emissions credited to a "
              "position are taken exactly from, and never exceed, the funded remaining amount; settlement pays whole tokens and keeps "
              "the fraction. Tied to the real collect_bank_fees handler (sim runtime, SPL / Token-2022 / transfer-fee mints) and to the "
-             "real claim/settle emissions code by differential execution; who may draw down fee and insurance vaults is pinned in C08."),
+             "real claim/settle emissions code by differential execution. Instruction level (model/Payout.v: withdraw_fees, "
+             "withdraw_fees_permissionless, update_fees_destination_account, withdraw_insurance, withdraw_emissions(_permissionless), "
+             "settle_emissions, update_emissions_destination_account with their account constraints and token transfers): the fee vault is "
+             "drawn down only by the group admin or into the destination the admin fixed, the insurance vault only by the admin, emissions "
+             "are paid (whole-token part of the credit, all into one account) only to the account named by an authorized signer or to the "
+             "ATA of the wallet the authority registered, destinations change only by their owner, and over EVERY history the emissions "
+             "vault covers remaining + outstanding and token supplies are conserved; corresponded with the real instructions through the "
+             "entry point on generated histories (suite payout)."),
     "design_ref": "DESIGN.md §7 C19",
     "technique": "Coq proof (handler inversion + exact integer identities) + model/implementation correspondence at handler and wrapper level",
 }
 THEOREMS = ["C19_collect_fees_exact", "C19_emissions_conserved_and_capped", "C19_settle_pays_whole_tokens",
             "C19_emissions_withdrawn_only_by_authority", "C19_emissions_destination_set_only_by_authority",
-            "C19_emissions_funding_covers_recorded"]
+            "C19_emissions_funding_covers_recorded",
+            "C19_fee_vault_drawn_only_by_admin_or_to_fixed_destination", "C19_insurance_vault_drawn_only_by_admin",
+            "C19_destinations_changed_only_by_their_owner", "C19_emissions_paid_only_to_chosen_destination",
+            "C19_payout_histories_keep_vaults_covered"]
 RULE = ("level C: handler sequences with fee buckets that are fractional, zero, or larger than the vault's liquidity, on SPL, "
         "Token-2022 and transfer-fee mints, interleaved with user activity and accrual; level B: sequences with emission flags, "
         "rates, remaining amounts and clock advances, with claim/settle operations. Non-trivial = a collect_fees that moved tokens "
         "or a claim that credited emissions; distinct = different case line")
 ASSUMPTIONS = [
     "destination accounts of collect_bank_fees (insurance/fee vault PDAs, canonical ATA of the global fee wallet) are enforced by account constraints and the in-handler ATA check: covered by C08's table and by the level-C run (a wrong ATA is rejected with InvalidFeeAta)",
-    "the emission token transfers of withdraw_emissions(_permissionless) are executed through the real entry point by the implementation-only suite emissions-payout (conservation oracle); the claim / settle accounting is modelled and corresponded at level B",
+    "the payout model (Payout.v) has one bank, one account with one position, SPL / Token-2022 emission mints WITHOUT transfer fee, and abstracts the protocol pause (C15); the associated-token-account derivation is an injective function of the wallet",
 ]
 OBSERVATIONS = []
 ONE = G.ONE
@@ -76,7 +86,8 @@ def suites(rng, tier):
     return [{"suite": "hops", "name": "hops-fees", "lines": a, "distribution": {"cases": n}},
             {"suite": "bankops", "name": "bankops-emissions", "lines": b, "distribution": {"cases": m}},
             destinations_suite(), payout_suite(rng, {"quick": 40, "thorough": 1500, "search": 300}[tier]),
-            funding_suite(rng, {"quick": 300, "thorough": 6000, "search": 1500}[tier])]
+            funding_suite(rng, {"quick": 300, "thorough": 6000, "search": 1500}[tier]),
+            payout_history_suite(rng, {"quick": 400, "thorough": 8000, "search": 3000}[tier])]
 
 
 U64 = (1 << 64) - 1
@@ -102,6 +113,149 @@ def funding_suite(rng, n):
         lines.append(f"{tokprog} {bps} {mx} {ob} {om} {en} {ep} {dec} {min(U64, amt())} {rng.choice([0, 1, 5, 10 ** 6])} {min(U64, amt())}")
     return {"suite": "emfund", "name": "emissions-funding", "lines": lines,
             "distribution": {"cases": n, "mints": "SPL / Token-2022 / Token-2022 with transfer fee (half of them with a pending fee change)"}}
+
+
+
+# ------------------------------------------------------------------------------------------------ payout histories
+PAY_BANK_TOKS = (10, 11, 12)
+PAY_EM_TOKS = (20, 1000, 1001, 1002)
+PAY_TOKS = PAY_BANK_TOKS + PAY_EM_TOKS
+
+
+def gen_payout_case(rng):
+    """a history of the eight instructions that draw down / redirect the fee, insurance and emissions vaults (model
+    coq/model/Payout.v), by the group admin (1), the account authority (2) and a stranger (3), with clock advances and
+    account-flag changes (frozen 64, disabled 1) in between"""
+    emprog = rng.choice([0, 1])
+    emdec = rng.choice([0, 6, 9])
+    dep = rng.choice([10 ** 6, 10 ** 9, 10 ** 12, rng.randrange(1, 10 ** 13)])
+    rate = rng.choice([0, 1, 1000, 10 ** 6, 10 ** 6, 10 ** 9, rng.randrange(1, 10 ** 10)])
+    total = rng.choice([0, 1, 1000, 10 ** 6, 10 ** 9, 10 ** 12, rng.randrange(1, 10 ** 14)])
+    fee0 = rng.choice([0, 1, 10 ** 6, rng.randrange(0, 10 ** 12)])
+    ins0 = rng.choice([0, 1, 10 ** 6, rng.randrange(0, 10 ** 12)])
+    t0 = 1_700_000_000 + rng.randrange(10 ** 6)
+    ops = []
+    amt = lambda v: rng.choice([0, 1, v, v + 1, max(0, v - 1), v // 2, rng.randrange(0, 2 * v + 2)])
+    fv, iv = fee0, ins0
+    signer = lambda good: good if rng.random() < 0.6 else rng.choice([1, 2, 3])
+    for _ in range(rng.randrange(4, 26)):
+        k = rng.random()
+        if k < 0.10:
+            ops.append([1, signer(1), rng.choice(PAY_BANK_TOKS + ((20,) if rng.random() < 0.1 else ())), amt(fv)])
+        elif k < 0.22:
+            ops.append([2, rng.choice(PAY_BANK_TOKS), amt(fv)])
+        elif k < 0.34:
+            ops.append([3, signer(1), rng.choice(PAY_BANK_TOKS + ((1001, 20) if rng.random() < 0.2 else ()))])
+        elif k < 0.44:
+            ops.append([4, signer(1), rng.choice(PAY_BANK_TOKS), amt(iv)])
+        elif k < 0.56:
+            ops.append([5, signer(2), rng.choice(PAY_EM_TOKS + ((11,) if rng.random() < 0.08 else ()))])
+        elif k < 0.70:
+            ops.append([6, rng.choice(PAY_EM_TOKS)])
+        elif k < 0.75:
+            ops.append([7])
+        elif k < 0.85:
+            ops.append([8, signer(2), rng.choice([0, 1, 1, 2])])
+        elif k < 0.95:
+            ops.append([9, rng.choice([0, 1, 60, 3600, 86400, 86400 * 30, 86400 * 365, rng.randrange(0, 10 ** 8)])])
+        else:
+            ops.append([10, rng.choice([0, 0, 64, 1, 65, 2, 16])])
+    flat = " ".join(" ".join(map(str, o)) for o in ops)
+    return f"{emprog} {emdec} {dep} {rate} {total} {fee0} {ins0} {t0} {len(ops)} {flat}"
+
+
+def payout_history_suite(rng, n):
+    lines = [gen_payout_case(rng) for _ in range(n)]
+    kinds = {}
+    for l in lines:
+        t = l.split()[9:]
+        i = 0
+        while i < len(t):
+            c = int(t[i]); kinds[c] = kinds.get(c, 0) + 1
+            i += 1 + {1: 3, 4: 3, 2: 2, 3: 2, 5: 2, 8: 2, 6: 1, 9: 1, 10: 1, 7: 0}[c]
+    return {"suite": "payout", "name": "payout-histories", "lines": lines,
+            "distribution": {"cases": n, "ops_by_code": {str(k): v for k, v in sorted(kinds.items())},
+                             "codes": "1 withdraw_fees 2 withdraw_fees_permissionless 3 update_fees_destination 4 withdraw_insurance "
+                                      "5 withdraw_emissions 6 withdraw_emissions_permissionless 7 settle_emissions "
+                                      "8 update_emissions_destination 9 clock 10 account flags"}}
+
+
+def parse_payout(case, impl):
+    t = case.split()
+    ops = []
+    i = 9
+    while i < len(t):
+        c = int(t[i]); n = {1: 3, 4: 3, 2: 2, 3: 2, 5: 2, 8: 2, 6: 1, 9: 1, 10: 1, 7: 0}[c]
+        ops.append([c] + [int(x) for x in t[i + 1:i + 1 + n]])
+        i += 1 + n
+    segs = impl.split(" | ")
+    states = []
+    for j, sg in enumerate(segs):
+        x = sg.split()
+        res = "INIT" if j == 0 else x[0]
+        v = [int(y) for y in (x if j == 0 else x[1:])]
+        states.append({"res": res, "fv": v[0], "iv": v[1], "ev": v[2], "fdest": v[3], "wallet": v[4], "alast": v[5],
+                       "out": v[6], "rem": v[7], "blast": v[8], "toks": dict(zip(PAY_TOKS, v[9:16]))})
+    return ops, states
+
+
+def oracle_payout_history(case, impl):
+    """the property, judged on the real handlers' outcomes alone: who drew which vault down and where the tokens went"""
+    if impl.startswith(("PANIC", "DRIVER")):
+        return None
+    ops, st = parse_payout(case, impl)
+    flags = 0
+    for op, a, b in zip(ops, st, st[1:]):
+        code = op[0]
+        if code == 10:
+            flags = op[1]
+            continue
+        if b["res"] != "OK":
+            if any(a[k] != b[k] for k in ("fv", "iv", "ev", "fdest", "wallet", "out", "rem", "toks")):
+                return {"key": "failed-payout-instruction-changed-state", "what": f"op {op} failed with {b['res']} but state changed"}
+            continue
+        gained = {k: b["toks"][k] - a["toks"][k] for k in PAY_TOKS if b["toks"][k] != a["toks"][k]}
+        dfv, div, dev = a["fv"] - b["fv"], a["iv"] - b["iv"], a["ev"] - b["ev"]
+        if dfv < 0 or div < 0 or dev < 0:
+            return {"key": "payout-vault-grew", "what": f"op {op}: vault deltas {dfv} {div} {dev}"}
+        if sum(gained.values()) != dfv + div + dev or any(v < 0 for v in gained.values()):
+            return {"key": "payout-tokens-not-conserved", "what": f"op {op}: vaults paid {dfv}+{div}+{dev}, accounts gained {gained}"}
+        if dfv > 0:
+            if code == 1 and op[1] == 1 and gained == {op[2]: dfv}:
+                pass
+            elif code == 2 and a["fdest"] == op[1] and a["fdest"] != 0 and gained == {op[1]: dfv}:
+                pass
+            else:
+                return {"key": "fee-vault-drawn-by-non-admin-or-to-other-destination",
+                        "what": f"op {op}: fee vault paid {dfv} to {gained}; fixed destination {a['fdest']}"}
+        if div > 0 and not (code == 4 and op[1] == 1 and gained == {op[2]: div}):
+            return {"key": "insurance-vault-drawn-by-non-admin", "what": f"op {op}: insurance vault paid {div} to {gained}"}
+        if b["fdest"] != a["fdest"] and not (code == 3 and op[1] == 1 and b["fdest"] == op[2] and op[2] in PAY_BANK_TOKS):
+            return {"key": "fee-destination-changed-by-non-admin", "what": f"op {op}: fees destination {a['fdest']} -> {b['fdest']}"}
+        if b["wallet"] != a["wallet"] and not (code == 8 and op[1] == 2 and b["wallet"] == op[2] and not flags & 65):
+            return {"key": "emissions-destination-changed-by-non-authority", "what": f"op {op}: wallet {a['wallet']} -> {b['wallet']} (flags {flags})"}
+        if dev > 0:
+            frozen, disabled = bool(flags & 64), bool(flags & 1)
+            ok = False
+            if code == 5 and not disabled and op[1] == (1 if frozen else 2) and gained == {op[2]: dev}:
+                ok = True
+            if code == 6 and not disabled and not frozen and a["wallet"] != 0 and op[1] == 1000 + a["wallet"] and gained == {op[1]: dev}:
+                ok = True
+            if not ok:
+                return {"key": "emissions-paid-to-unchosen-destination",
+                        "what": f"op {op}: emissions vault paid {dev} to {gained}; registered wallet {a['wallet']}, flags {flags}"}
+            # exactly the accrued amount: whole tokens of (outstanding + newly credited), fraction kept
+            credited = a["rem"] - b["rem"]
+            if credited < 0 or dev * ONE + b["out"] != a["out"] + credited or not (0 <= b["out"] < ONE):
+                return {"key": "emissions-payout-not-accrued-amount",
+                        "what": f"op {op}: paid {dev}, outstanding {a['out']} -> {b['out']}, remaining {a['rem']} -> {b['rem']}"}
+        else:
+            if b["rem"] > a["rem"] or (b["out"] - a["out"]) != (a["rem"] - b["rem"]):
+                return {"key": "emissions-credit-not-from-remaining",
+                        "what": f"op {op}: outstanding {a['out']} -> {b['out']}, remaining {a['rem']} -> {b['rem']}"}
+        if b["ev"] * ONE < b["rem"] + b["out"]:
+            return {"key": "emissions-vault-does-not-cover", "what": f"after op {op}: vault {b['ev']} < remaining {b['rem'] / ONE} + outstanding {b['out'] / ONE}"}
+    return None
 
 
 def oracle_funding(case, impl):
@@ -192,6 +346,9 @@ def destinations_suite():
 
 
 def nontrivial(suite, case, impl):
+    if suite == "payout":
+        ops, st = parse_payout(case, impl)
+        return any(b["res"] == "OK" and (a["fv"], a["iv"], a["ev"]) != (b["fv"], b["iv"], b["ev"]) for a, b in zip(st, st[1:]))
     if suite == "emfund":
         return any(seg.startswith("OK ") and int(seg.split()[3]) > 0 for seg in impl.split(" | "))
     if suite == "auth" and " k=emis0 " in case:
@@ -221,6 +378,8 @@ def nontrivial(suite, case, impl):
 
 
 def oracle(suite, case, impl):
+    if suite == "payout":
+        return oracle_payout_history(case, impl)
     if suite == "emfund":
         return oracle_funding(case, impl)
     if suite == "auth" and (" k=emis " in case or " k=emis0 " in case):
